@@ -8,7 +8,7 @@ from ..gens import build_scenario, scenario, seed_s, simulate
 PROPERTY_ID = "C14"
 ASSUMPTIONS = [
     "float64; directional derivatives by 5-point central differences at two step sizes (1e-3, 5e-4) on the same simulated buffers; "
-    "a case counts only if the two step sizes agree to 1e-7 relative (otherwise a kink of |.|, top-k or relu lies inside the stencil: discarded and counted)",
+    "a direction counts only if every stencil point lies on the same side of every kink as the base point (signs of all trades and of the opening trade when costs are charged, top-k membership for ES, signs of residuals for L1) and the two step sizes agree to 1e-7 relative; otherwise it is discarded and counted",
     "tolerance 1e-6 relative + 1e-9 absolute; quadratic CVaR 2e-4 relative (its bisection leaves |dh/domega| <= 2*lam*precision on a path autograd follows)",
     "models are smooth (Linear, tanh MLP, tanh-recurrent user module); ReLU kinks are not part of 'generic parameter points'",
 ]
@@ -103,14 +103,41 @@ def check_grad(case, ctx):
     gen = torch.Generator().manual_seed(case["dir_seed"])
     base = [p.detach().clone() for p in params]
 
-    def at(h, d):
+    any_cost = any(getattr(h_, "cost", 0.0) for h_ in (hedge or list(deriv.underliers())))
+
+    def signature():
+        """Which side of each kink (|trade|, |opening trade|, top-k membership, |residual|) the current point is on."""
+        unit = hedger.compute_hedge(deriv, hedge=hedge)
+        sig = []
+        if any_cost:
+            sig += [torch.sign(unit.diff(dim=-1)), torch.sign(unit[..., 0])]
+        if c["kind"] in ("es", "l1"):
+            pf = hedger.compute_portfolio(deriv, hedge=hedge) - deriv.payoff()
+            if c["kind"] == "l1":
+                sig.append(torch.sign(pf))
+            else:
+                import math
+                kk = math.ceil(c["p"] * pf.numel())
+                sig.append(pf.topk(kk, largest=False).indices.sort().values)
+        return sig
+
+    def at(h, d, sig0=None):
         with torch.no_grad():
             for p, b, di in zip(params, base, d):
                 p.copy_(b + h * di)
             v = float(loss_fn())
+            same = True
+            if sig0 is not None:
+                same = all(torch.equal(x, y) for x, y in zip(signature(), sig0))
             for p, b in zip(params, base):
                 p.copy_(b)
-        return v
+        return (v, same) if sig0 is not None else v
+
+    with torch.no_grad():
+        sig0 = signature()
+
+    def crosses_kink(d, h):
+        return not all(at(k * h, d, sig0)[1] for k in (-2, -1, 1, 2))
 
     def fd(h, d):
         return (-at(2 * h, d) + 8 * at(h, d) - 8 * at(-h, d) + at(-2 * h, d)) / (12 * h)
@@ -137,6 +164,9 @@ def check_grad(case, ctx):
     dirs.append(e)
     for d in dirs:
         with ctx.sut("C14/loss"):
+            if crosses_kink(d, 1e-3):
+                ctx.exclude("kink-inside-stencil")
+                continue
             f1, f2 = fd(1e-3, d), fd(5e-4, d)
         scale = max(abs(f1), abs(f2), 1e-6)
         if abs(f1 - f2) > 1e-7 * scale + 1e-10:
